@@ -307,6 +307,11 @@ def case_propagator(ctx):
             # an input that does not commute with the propagator pins the documented side of the multiplication
             dm = ctx.lib(MpDm.from_mps, mps, what="MpDm.from_mps")
             ctx.cls("X:mpdm-noncommuting-input")
+            # the purified state is the input state, prefactor (norm and phase) included: the reference of what follows is
+            # read from the library object, so the object itself is pinned to the harness's vector first
+            ctx.count("oracle")
+            ctx.close(states.dense_of(dm), np.diag(psi0), 1e-12, "X|MpDm.from_mps|differs-from-diag(psi)-prefactor-included",
+                      scale=max(float(np.linalg.norm(psi0)), 1e-300), coeff=complex(mps.coeff))
         M0 = states.dense_of(dm)
         out = ctx.lib(dm.evolve_exact, h_mpo, dt, space, what="MpDm.evolve_exact")
         # documented in MpDm.evolve_exact ("Mpdm is applied on the propagator, different from base method"; the finite-
